@@ -1445,7 +1445,12 @@ class Interp(object):
     choice = ctx.fork(2)
     pre_objs = self._reachable_objs(fr.flat_env().values())
     pre_names = set(fr.env)
-    modified = _assigned_names(node.body) | set(ghost_vars) | set(spec.locals)
+    # ghost variables the ghost code never assigns are loop constants (a snapshot taken at loop
+    # entry): they keep their entry value instead of being havocked
+    ghost_assigned = set()
+    for src in (spec.ghost_step, spec.ghost_pre):
+      if src: ghost_assigned |= _assigned_names(ast.parse(_dedent(src)).body)
+    modified = _assigned_names(node.body) | (set(ghost_vars) & ghost_assigned) | set(spec.locals)
     if isinstance(node, ast.For): modified |= _target_names(node.target)
     if it is not None and idx_name: modified.discard(idx_name)
     for name in sorted(modified):
